@@ -513,7 +513,7 @@ func (V *Verifier) NewExec(fn *ssa.Function, spec *FuncSpec) *Exec {
 		iterLoop: map[string]*ssa.BasicBlock{}, localName: map[string]*ssa.Alloc{},
 		freeVarVals: map[*ssa.FreeVar]Val{}, ifaceSrc: map[string]ifaceOrigin{}, ifacePayload: map[string]Val{},
 		usedSpecs: map[string]bool{}, usedSpecFns: map[string]bool{}, usedAx: map[string]bool{},
-		constArrs: map[string]*Term{}, concatPrefix: map[string]string{}, callCount: map[string]int{}, rawElemTy: map[string]types.Type{},
+		constArrs: map[string]*Term{}, concatPrefix: map[string]string{}, callCount: map[string]int{}, rawElemTy: map[string]types.Type{}, logicalCache: map[string]Val{},
 	}
 	if spec != nil {
 		ex.safety = len(spec.Safety) > 0
